@@ -85,16 +85,26 @@ def r06b(ctx):
     ck = c.calls('blake3::keyed_hash')
     d = an(F.body('merklehash::data_hash::compute_data_hash')).arg(an(F.body('merklehash::data_hash::compute_data_hash')).calls('blake3::keyed_hash')[0], 0)
     ctx.check(len(ck) == 1 and c.arg(ck[0], 0)[0] == 'bytes' and c.arg(ck[0], 0) != d, 'R06b', CORE, 'key', c.loc(ck[0]) if ck else '-', 'interior nodes are keyed with their own constant, distinct from the leaf key')
-    # leaves are (hash, length)
+    # leaves are (hash, length) of one and the same input element — whether the elements are visited by a closure
+    # (`chunks.iter().map(|(h, len)| ..)`) or by an explicit loop over the chunks parameter
     for s in ('merkledb::aggregate_hashes::cas_node_hash', 'merkledb::aggregate_hashes::file_node_hash'):
         b = F.body(s)
-        cl = [x for x in F.children(b)]
-        ok = False
-        for cb in cl:
-            ac = an(cb)
-            for m in ac.calls('merkledb::merkledbbase::MerkleDBBase::maybe_add_node'):
-                ok = ok or (flow.mentions(ac.arg(m, 1), lambda z: z[0] == 'param') and flow.mentions(ac.arg(m, 2), lambda z: z[0] == 'param'))
-        ctx.check(ok, 'R06b', s, 'leaf', '-', 'each leaf is added as (hash, length) of the input element')
+        found, ok = 0, True
+        for (ab, is_closure) in [(an(b), False)] + [(an(cb), True) for cb in F.children(b)]:
+            for m in ab.calls('merkledb::merkledbbase::MerkleDBBase::maybe_add_node'):
+                found += 1
+                h, ln = ab.arg(m, 1), ab.arg(m, 2)
+                same = h[0] == 'field' and ln[0] == 'field' and h[2] == '0' and ln[2] == '1' and h[1] == ln[1]
+                if not same:
+                    ok = False
+                    continue
+                x = h[1]
+                if is_closure:
+                    ok = ok and x[0] == 'param'
+                else:
+                    srcs = [e_ for (_, _, e_) in ab.flow.sources(x)]
+                    ok = ok and bool(srcs) and all(flow.mentions(e_, lambda z: z[0] == 'param' and z[1] == 1) for e_ in srcs)
+        ctx.check(found >= 1 and ok, 'R06b', s, 'leaf', '-', 'each leaf is added as (hash, length) of one input element')
 
 
 def r06c(ctx):
